@@ -564,6 +564,10 @@ func (s *Server) validateConnect(cl *Client, pk packets.Packet) packets.Code {
 		return packets.ErrUnspecifiedError
 	}
 
+	if pk.Connect.WillFlag && strings.ContainsAny(pk.Connect.WillTopic, "+#") {
+		return packets.ErrTopicNameInvalid // the will topic must be a topic name
+	}
+
 	if cl.Properties.ProtocolVersion < s.Options.Capabilities.MinimumProtocolVersion {
 		return packets.ErrUnsupportedProtocolVersion // [MQTT-3.1.2-2]
 	} else if cl.Properties.Will.Qos > s.Options.Capabilities.MaximumQos {
@@ -1558,6 +1562,10 @@ func (s *Server) sendLWT(cl *Client) {
 	}
 
 	modifiedLWT := s.hooks.OnWill(cl, cl.Properties.Will)
+	if !cl.Net.Inline && (!IsValidFilter(modifiedLWT.TopicName, true) || !s.hooks.OnACLCheck(cl, modifiedLWT.TopicName, true)) {
+		atomic.StoreUint32(&cl.Properties.Will.Flag, 0) // a will is a publish by the client: same topic rules and write permission
+		return
+	}
 
 	pk := packets.Packet{
 		FixedHeader: packets.FixedHeader{
